@@ -12,6 +12,8 @@ CLAIMS = {
  "C03": ("5 C03", "Bounded model checking of the real reply path: (a) Respond/RespondR*/RespondError on a request with arbitrary status bits and 1..3 answers queues a reply exactly when the request was neither answered nor flushed; (b) end-to-end through Srv.NewConn on a scripted transport: after Tversion/Tattach/Topen, 2 (thorough 3) concurrent Tread/Twrite with distinct symbolic tags and offsets, implementation answering ok / with an error / twice, Maxpend 0/1(/4), every completion order and every interleaving of receiver, workers and sender with <= 1 (thorough 2) preemptions; the wire log must hold exactly one frame per request tag whose bytes equal the independent encoding of what the implementation produced for that request. Happens-before race detection runs on every schedule."),
  "C05": ("5 C05", "One-step symbolic model checking of Process(): fid state (type byte, opened, open mode) fully symbolic, request of type Twalk/Topen/Tcreate/Tread/Twrite with all fields full-width symbolic (32-bit counts, any msize >= 24, both dialects), with and without AuthOps; a three-valued reference rule transcribed from the statement decides must-refuse / must-forward / either; forwarded requests must reach the implementation exactly once with the table's fid, its user and unchanged arguments, with no framework lock held. Plus: AuthCheck precedes every forwarded attach (symbolic uid / afid), and an observer goroutine at the reply rendezvous sees the request's effects in every schedule (<= 2 preemptions). One step from an arbitrary state: history length is not a bound."),
  "C20": ("5 C20", "Bounded model checking of the real Logger (its goroutine, channels and select): capacity 1..2 (thorough ..3), every sequence of 3 (thorough 4-5) Log/Filter calls with symbolic types, plus a final Filter after quiescence, and two concurrent producers; all schedules with <= 1 (thorough 2) preemptions and every select choice; oracle = reference ring (subsequence in log order, no duplicates, no gaps, <= N, convergence to the last N, nobody parked but the logger)."),
+
+ "C07": ("5 C07", "Bounded model checking through the real Srv.NewConn on a scripted transport: a target request (Twalk to a new fid / Topen / Tread / Tattach / Tclunk) and one or two Tflush (second flush of the target, flush of the flush, unknown tag), delivered in one or two segments; with no FlushOp, a no-op FlushOp, or one that cancels; target optionally held inside the implementation or answered later; every interleaving of receiver, sender and worker goroutines with <= 1 preemption (thorough: all 5x2x3x2 combinations, 2 preemptions on two of them). Oracle over the transport log and a common clock: one Rflush per Tflush, reply before Rflush, a cancelled request is never handed to the implementation after the Rflush and leaves no fid/open state (probed). Race detection on every schedule."),
 }
 props = [json.loads(l) for l in open(os.path.join(V, "properties.jsonl"))]
 checks, na = [], []
